@@ -22,6 +22,16 @@ the clean-up `DROP` included) raise before it runs (what the harness does throug
 -/
 namespace Model.Batch
 
+/-- Python class of the exception a failing statement raises.  The handler in `_create` is a bare `except:`, which
+    catches every `BaseException`; so the kind is carried but **never consulted**: no function of the model reads
+    it, and every theorem (quantified over all plans) visibly holds for each kind. -/
+inductive FailKind where
+  | exception          -- an `Exception` (DBAPI errors, …)
+  | keyboardInterrupt  -- `KeyboardInterrupt`
+  | systemExit         -- `SystemExit`
+  | baseException      -- any other `BaseException` that is not an `Exception` (`asyncio.CancelledError`, `GeneratorExit`)
+  deriving DecidableEq, Repr
+
 /-- everything `_create` needs from the `ApplyBatchImpl` state -/
 structure Plan where
   newSchema : Schema
@@ -32,6 +42,8 @@ structure Plan where
   /-- `impl.transactional_ddl` (dialect default or the `transactional_ddl` option of the context).  `_create` does
       not consult it: no function below reads this field, so every theorem holds for both values. -/
   transactionalDdl : Bool := false
+  /-- class of the exception the failing statement raises; see `FailKind`: not read by `_create`'s bare `except:` -/
+  failKind : FailKind := .exception
 
 def State.plan (st : State) : Plan :=
   { newSchema := st.newSchema, tmpIndexes := st.tmpIndexes, feeds := st.feeds, gather := st.gatherIndexes }
@@ -128,7 +140,7 @@ structure Outcome where
 /-- `with op.batch_alter_table(t, recreate=…, copy_from=…) as b: ops` on a connection whose database is `db` -/
 def runBatch (ct : ConvTable) (tableName : String) (reflected always : Bool) (ops : List BatchOp)
     (fault : Option Nat) (commitOnError : Bool) (db : Db) (mode : ConnMode := .pysqliteLegacy)
-    (transactionalDdl : Bool := false) (copyFrom : Option Schema := none) : Outcome :=
+    (transactionalDdl : Bool := false) (copyFrom : Option Schema := none) (failKind : FailKind := .exception) : Outcome :=
   let ops := expandOps tableName ops
   let c0 := Conn.start mode db
   if queueError always [] ops then { recreated := false, trace := [], err := some .commandError, final := db }
@@ -149,7 +161,7 @@ def runBatch (ct : ConvTable) (tableName : String) (reflected always : Bool) (op
         if !distinct (st.columns.map (·.2.name)) then
           { recreated := true, trace := [], err := some .duplicateColumnPy, final := db }
         else
-          let x := create ct fault { st.plan with transactionalDdl := transactionalDdl } (Run.start c0)
+          let x := create ct fault { st.plan with transactionalDdl := transactionalDdl, failKind := failKind } (Run.start c0)
           { recreated := true, trace := x.1.trace, err := x.2, final := (finish commitOnError x).committed }
 
 end Model.Batch
